@@ -289,6 +289,8 @@ type stateProgress struct {
 	mutex      sync.Mutex
 	closeOnce  sync.Once
 	resultOnce sync.Once
+	// Set, under mutex, once results has been closed; nothing may be sent on it afterwards.
+	resultsClosed bool
 	// Used to track subinclude() calls that block until targets are built. Keyed by their label.
 	pendingTargets *cmap.Map[BuildLabel, chan struct{}]
 	// Guards closing the channels in pendingTargets, which can now happen on success or failure.
@@ -432,6 +434,7 @@ func (state *BuildState) CloseResults() {
 	if state.progress.results != nil {
 		state.progress.resultOnce.Do(func() {
 			close(state.progress.results)
+			state.progress.resultsClosed = true
 		})
 	}
 }
@@ -696,11 +699,19 @@ func (state *BuildState) forwardResults() {
 				delete(activeTargets, target)
 			}
 		}
-		state.progress.mutex.Lock()
-		if state.progress.results != nil {
-			state.progress.results <- result
-		}
-		state.progress.mutex.Unlock()
+		state.forwardResult(result)
+	}
+}
+
+// forwardResult passes one result on to the external channel, unless that has been closed already: results
+// still in flight when the build finishes are dropped. (Sending on the closed channel would panic with the
+// mutex held, and everything that needs the mutex afterwards - e.g. the display asking for the channel - would
+// block forever.)
+func (state *BuildState) forwardResult(result *BuildResult) {
+	state.progress.mutex.Lock()
+	defer state.progress.mutex.Unlock()
+	if state.progress.results != nil && !state.progress.resultsClosed {
+		state.progress.results <- result
 	}
 }
 
